@@ -67,7 +67,7 @@ def gen_ops(rng, n):
     return ops
 
 
-def apply_op(store, op, DDSException, keep_refs=None):
+def apply_op(store, op, DDSException, keep_refs=None, hold=None):
     from collections import OrderedDict
     kind = op[0]
     try:
@@ -80,6 +80,8 @@ def apply_op(store, op, DDSException, keep_refs=None):
             v = store.fetch_blob(op[1])
             if v is not None and keep_refs is not None:
                 keep_refs.append(weakref.ref(v))
+            if v is not None and hold is not None:
+                hold.append(v)       # the program goes on using what it fetched
             return {"val": None if v is None else v.n}
         if kind == "sync":
             store.sync_paths(OrderedDict([(p, k) for (p, k) in op[1]]))
@@ -121,11 +123,18 @@ def run(ctx):
             kind = "memory" if i % 3 else "local"
             cap = caps[i % len(caps)]
             ops = gen_ops(rng, rng.randint(3, maxlen))
+            # every fourth sequence: the caller keeps (strongly) every object it fetched, as a program that goes on using its data
+            # does; the first of them is directed: a key is fetched, evicted, stored again with another content and fetched
+            held = [] if i % 4 == 1 else None
+            if i == 1 or i == 5:
+                ops = [["store", "k5", 11], ["fetch", "k5"], ["store", "k6", 12], ["fetch", "k6"], ["store", "klater", 14], ["fetch", "klater"],
+                       ["store", "k5", 13], ["fetch", "k5"], ["has", "k5"]] + ops
             if ctx.get("replay") and i == 0:
                 rp = json.load(open(ctx["replay"]))
                 inp = rp.get("violation", {}).get("input") or {}
                 if "ops" in inp:
                     ops, cap, kind = inp["ops"], inp.get("capacity", cap), inp.get("inner", kind)
+                    held = [] if inp.get("fetched_objects_kept_by_the_caller") else None
             if kind == "local":
                 # fetch_paths on the local store resolves links; keep sync targets to stored keys only
                 ops = [op for op in ops if op[0] not in ("sync", "fetch_paths")]
@@ -136,7 +145,7 @@ def run(ctx):
             first_bad = None
             for j, op in enumerate(ops):
                 ob = apply_op(bare, op, DDSException)
-                ow = apply_op(wrapped, op, DDSException, keep_refs=refs if kind == "local" else None)
+                ow = apply_op(wrapped, op, DDSException, keep_refs=refs if (kind == "local" and held is None) else None, hold=held)
                 outs_b.append(ob)
                 outs_w.append(ow)
                 sz = len(wrapped._cache._cache) if hasattr(getattr(wrapped, "_cache", None), "_cache") else None
@@ -145,7 +154,7 @@ def run(ctx):
                     first_bad = ("answers differ at op %d %s: bare %s, wrapped %s" % (j, op, ob, ow), j)
                 if first_bad is None and sz is not None and sz > cap:
                     first_bad = ("cache holds %d entries, capacity %d, after op %d" % (sz, cap, j), j)
-                if first_bad is None and kind == "local" and j % 7 == 6:
+                if first_bad is None and kind == "local" and held is None and j % 7 == 6:
                     gc.collect()
                     alive = len({id(o) for o in (r() for r in refs) if o is not None})
                     if alive > cap:
@@ -156,7 +165,8 @@ def run(ctx):
             res.nontrivial("%s cap%d %s" % (kind, cap, json.dumps(ops)))
             if first_bad is not None:
                 res.violations.append({"what": "wrapped store is not transparent/bounded: " + first_bad[0],
-                                       "input": {"inner": kind, "capacity": cap, "ops": ops[: first_bad[1] + 1]}, "kf": None})
+                                       "input": {"inner": kind, "capacity": cap, "ops": ops[: first_bad[1] + 1],
+                                                 "fetched_objects_kept_by_the_caller": held is not None}, "kf": None})
             reqs.append({"op": "storeops", "kind": "dict", "ops": ops})
             meta.append(("bare " + kind, ops, outs_b, None))
             reqs.append({"op": "storeops", "kind": "lru", "cap": cap, "ops": ops})
